@@ -1,10 +1,23 @@
 ENGINES = [
     {"name": "check.py", "path": "/verif/check.py", "serves_properties": [], "kind_free_text": "driver: rebuilds libjwt from /repo's working tree (ASan+UBSan / fuzzer / TSan flavors), runs harness workers, merges stats, writes evidence, replays and classifies violations against known-findings.jsonl"},
-    {"name": "enum", "path": "/verif/harness", "serves_properties": ["C11"], "kind_free_text": "exhaustive enumerators over the finite domains the properties name, same oracle code as the random mode"},
+    {"name": "rapidcheck", "path": "/verif/harness", "serves_properties": ["C01"], "kind_free_text": "rapidcheck generators with shrinking; RC_PARAMS seed derived from VERIF_SEED and worker index; one process per worker"},
+    {"name": "enum", "path": "/verif/harness", "serves_properties": ["C02", "C03", "C11"], "kind_free_text": "exhaustive enumerators over the finite domains the properties name, same oracle code as the random mode"},
 ]
 NOTES = "Technique family: property-based testing and fuzzing (rapidcheck, libFuzzer, exhaustive enumeration, fork-per-fault allocation failure injection, TSan stress). See DESIGN.md."
 NOT_APPLICABLE = {}
 CLAIMS = {
+    "C01": dict(engine="rapidcheck", level="exploration", design_ref="DESIGN.md section 4 C01",
+                technique="property-based testing (rapidcheck): mutation-program generator over validly signed tokens, differential against an independent verifier on raw OpenSSL EVP",
+                text="Generated forgeries (22 mutation operators incl. ECDSA/EdDSA/RSA specials, re-targeted signatures, header alg swaps with attacker-computable HMAC keys) for every key type x admissible alg x checker config x provider; the checker may return 0 only if the independent verifier accepts. Exploration: absence of a forgery is not shown, cryptanalytic forgeries are out of reach.",
+                note="trusts OpenSSL primitives used by the reference verifier and the fixture key pool; PSS verified with any salt length, ECDSA as fixed-width r||s"),
+    "C02": dict(engine="enum", level="exploration", design_ref="DESIGN.md section 4 C02",
+                technique="exhaustive enumeration of the configuration matrix (explicit alg x key x key alg attr x header alg x route x signature x provider) against a model of the statement and an independent verifier",
+                text="The finite matrix named by the property is enumerated completely (about 570k verify/generate cells per run) with attacker-computable signatures (empty-key / public-PEM / raw-public-key HMAC, own key pair, real key under another alg); verdicts, setkey results and generated tokens are compared with a model of the documented table and the pinning rule. Exhaustive over the stated cell space, one key per type in quick.",
+                note="model of the statement in C02_matrix.cc; reference verifier on raw OpenSSL EVP; GnuTLS cells carry no positive assertion for ES256K/secp256k1"),
+    "C03": dict(engine="enum", level="exploration", design_ref="DESIGN.md section 4 C03",
+                technique="exhaustive enumeration of checker/builder configurations x token shapes with a two-sided oracle for key-less checkers",
+                text="All configurations (no key, key with/without alg attr, explicit alg, callback selecting key/alg/both) x header alg variants x signature shapes x 2-5 segment shapes are enumerated; keyed checkers must never accept empty signatures or alg none, key-less checkers accept exactly alg none with an empty third segment, builders with a key never emit unsigned tokens.",
+                note="same model and reference verifier as C02"),
     "C11": dict(engine="enum", level="exploration", design_ref="DESIGN.md section 4 C11",
                 technique="exhaustive enumeration of small inputs + seeded random buffers against an independent RFC 4648 codec, under ASan/UBSan",
                 text="Every byte string of length 0-3 is encoded and round-tripped, every 1-4 character string over a class-representative alphabet (quick) or all 255 NUL-free bytes (thorough) is decoded and compared with an independent codec and with the reject rules of the statement; buffer arithmetic is exercised for every length 0-4096 and random lengths to 64 KiB under ASan. Exhaustive for the enumerated domains, sampled beyond.",
